@@ -43,10 +43,14 @@ impl AckFrequencyState {
         // Use the peer's max_ack_delay if no custom max_ack_delay was provided in the config
         let min_ack_delay =
             Duration::from_micros(peer_params.min_ack_delay.map_or(0, |x| x.into()));
+        // The peer's `min_ack_delay` is only known to be at most its `max_ack_delay`: it may well
+        // exceed the RTT-derived upper bound, in which case it wins (anything smaller would be a
+        // protocol violation on our part)
+        let upper = rtt.max(MIN_AUTOMATIC_ACK_DELAY).max(min_ack_delay);
         config
             .max_ack_delay
             .unwrap_or(self.peer_max_ack_delay)
-            .clamp(min_ack_delay, rtt.max(MIN_AUTOMATIC_ACK_DELAY))
+            .clamp(min_ack_delay, upper)
     }
 
     /// Returns the `max_ack_delay` for the purposes of calculating the PTO
